@@ -46,6 +46,7 @@ def geom_cases(draw):
     g["pad_value"] = draw(st.integers(-5, 5))
     g["dtype"] = draw(st.sampled_from(["float64", "float32"]))
     g["layout"] = draw(st.sampled_from(["C", "C", "F", "strided", "neg_strided"]))
+    g["pow2"] = draw(st.sampled_from([0, 0, 0, -30, -60, 20]))       # values are scaled by 2**pow2: still exact
     n = N * C * g["H"] * g["W"]
     g["x"] = draw(hnp.arrays(np.int8, (n,), elements=st.integers(-9, 9), fill=st.nothing())).tolist()
     g["y"] = draw(hnp.arrays(np.int8, (48,), elements=st.integers(-9, 9), fill=st.nothing())).tolist()
@@ -87,7 +88,11 @@ def check_geom(g, rec):
     dt = np.dtype(g.get("dtype", "float64"))
     N, C, H, W = g["N"], g["C"], g["H"], g["W"]
     from ..ops import _layout
-    x = _layout(np.asarray(g["x"], dtype=dt).reshape(N, C, H, W), g.get("layout", "C"))
+    sc = 2.0 ** g.get("pow2", 0)
+    x = _layout((np.asarray(g["x"], dtype=np.float64) * sc).astype(dt).reshape(N, C, H, W), g.get("layout", "C"))
+    g = dict(g, y=[v * sc for v in g["y"]])
+    if g.get("pow2", 0):
+        rec.tag("scaled_values")
     if g.get("layout", "C") != "C":
         rec.tag("noncontiguous_input")
     k, s, d, p = g["k"], g["s"], g["d"], g["p"]
